@@ -491,6 +491,24 @@ fn faults_for(mode: Mode, tier: Tier, seed: u64, img: &ImageInfo) -> Vec<Fault> 
                 } else {
                     vec![(rd64(h), rd32(h + 24), 8u64), (rd64(h + 8), rd32(h + 28), 8u64), (rd64(h + 16), file[h + 32] as u64, 8u64)]
                 };
+                // ... and the tail blocks of a content pack's clusters (blob count, sizes and the
+                // blob offsets), found through the cluster-pointer table (size in the low 16 bits,
+                // position above them): the first six and the last two clusters
+                let mut tables = tables;
+                if span.kind == b'c' {
+                    let (ptr_pos, n_clusters) = (rd64(h + 8), rd32(h + 20));
+                    for k in (0..n_clusters).filter(|k| *k < 6 || *k + 2 >= n_clusters) {
+                        let at = (span.start + ptr_pos + 8 * k) as usize;
+                        if at + 8 > file.len() {
+                            break;
+                        }
+                        let data = rd64(at);
+                        let (tail_size, tail_pos) = (data & 0xFFFF, data >> 16);
+                        if tail_size > 0 {
+                            tables.push((tail_pos, tail_size, 1));
+                        }
+                    }
+                }
                 for (pos, count, elem) in tables {
                     let (lo, len) = (span.start + pos, count * elem);
                     if count == 0 || pos + len + 4 > span.size {
